@@ -34,13 +34,15 @@ on which `FindLinker` has nothing to re-find.  Step model of `FindLinker.next_le
                              surplus; the merged sub-net has no shortage (nothing is relocated), but
                              it is solved as ONE assignment problem.
 
--- FULL (not proved): (b) under the hypothesis of (a) alone (`∀ g ∈ flGroups, short g = false`).
---   Then `flGroups` may contain unions of plain sub-nets (see the witness).  The optimum COST of a
---   union is the sum of the optima (`Props/C02.components_compose`), but the branch-and-bound on
---   the concatenated candidate lists returns the concatenation of the parts' solutions only up to
---   ties; what is proved for that case is `flAlgoStep_labels_no_short` (labels = the plain solver
---   on each merged sub-net).  Equality with `algoLabels` on merged sub-nets would need uniqueness
---   of the optimum (`UniqueOpt`, Props/C03Perm.lean) — missing.
+-- (b) under the hypothesis of (a) alone (`∀ g ∈ flGroups, short g = false`): `Props/C14Merged.lean`.
+--   `flGroups` may contain unions of plain sub-nets (see the witness); there: the optimum COST of a
+--   union is the sum of the optima (`merged_group_cost`, from `Props/C02.groups_compose_list`), the
+--   step's total cost is the plain linker's (+ one null link per candidate-less source,
+--   `flAlgoStep_cost_eq_plain`), and with a unique optimum in every plain sub-net the labels are the
+--   plain linker's (`flAlgoStep_eq_algoLabels_of_unique`).
+-- FULL (not proved): label equality when a merged plain sub-net has a TIED optimum — the
+--   branch-and-bound on the concatenated candidate lists returns the concatenation of the parts'
+--   solutions only up to ties (neither proved nor refuted on a witness).
 -/
 namespace TrackpyV.FindLink
 open TrackpyV.Linker TrackpyV.Assign
